@@ -251,7 +251,11 @@ func C20(c *core.Ctx) {
 					case 0:
 						j.Dirs = append(j.Dirs, kj.Dir{K: "trx", Z: z, Desc: "salary", Bk: []kj.Booking{{Cr: "Income:Salary", Dr: "Assets:Bank", C: "CHF", Q: 10 + rng.Intn(90)}}})
 					case 1:
-						j.Dirs = append(j.Dirs, kj.Dir{K: "trx", Z: z, Desc: "food", Bk: []kj.Booking{{Cr: "Assets:Bank", Dr: "Expenses:Food", C: "CHF", Q: 1 + rng.Intn(20)}}})
+						d := kj.Dir{K: "trx", Z: z, Desc: "food", Bk: []kj.Booking{{Cr: "Assets:Bank", Dr: "Expenses:Food", C: "CHF", Q: 1 + rng.Intn(20)}}}
+						if rng.Intn(3) == 0 {
+							d.Desc, d.Perf = "custody fee", []string{} // @performance(): an internal performance effect, not an external flow
+						}
+						j.Dirs = append(j.Dirs, d)
 					case 2:
 						// sell a position completely (its valued holding drops to exactly zero)
 						var cand []string
